@@ -6,11 +6,10 @@
 package ggql
 
 //@ -- ------------------------------------------------------------------ helpers
+//@ spec isnilv(v interface{}) bool = v == nil || (ptrlike(v) && ptrval(v) == 0)
 //@ func IsNil
 //@   abstract reads the interface header through unsafe; assumed: true exactly for nil interfaces and nil pointer-shaped values
-//@   ensures v == nil ==> res
-//@   ensures !ptrlike(v) && v != nil ==> !res
-//@   ensures ptrlike(v) ==> (res <==> ptrval(v) == 0)
+//@   ensures res <==> isnilv(v)
 //@   assigns nothing
 
 //@ func newCoerceErr
@@ -35,14 +34,20 @@ package ggql
 //@ spec skippedUpTo(dus []*DirectiveUse, vars map[string]interface{}, k int) bool reads SH_Int, H_DirectiveUse.Directive, H_DirectiveUse.Args, MH_Str_Int, MD_Str_Int, H_ArgValue.Value, MH_Str_Iface, MD_Str_Iface
 //@ axiom skippedUnfold(dus []*DirectiveUse, vars map[string]interface{}, k int): !skippedUpTo(dus, vars, 0) && (k >= 0 ==> (skippedUpTo(dus, vars, k+1) <==> (skippedUpTo(dus, vars, k) || skipOne(dus[k], vars))))
 
+//@ spec asSel(s Selection) Selection = s
+//@ axiom dirsOfField(f *Field): asSel(box(f)).Directives() == f.Dirs
 //@ func (*Root).skipSel
 //@   props C09
 //@   check panic {C03}
-//@   requires sel != nil
-//@   requires forall i int :: 0 <= i && i < len(sel.Directives()) ==> sel.Directives()[i] != nil && sel.Directives()[i].Directive != nil
+//@   requires sel != nil && ptrval(sel) != 0
 //@   ensures[formula] skip <==> skippedUpTo(sel.Directives(), vars, len(sel.Directives()))
-//@   loop 0: invariant 0 <= rangeindex+1 && rangeindex+1 <= len(sel.Directives())
-//@           invariant skip <==> skippedUpTo(sel.Directives(), vars, rangeindex+1)
+//@   ensures[errs-fresh]{C06} errsFresh(ea)
+//@   ensures[no-resolver] #res == old(#res)
+//@   check frame {C11}
+//@   assigns fresh
+//@   loop 0: invariant[bounds] 0 <= rangeindex+1 && rangeindex+1 <= len(sel.Directives())
+//@           invariant[errs] errsFresh(ea)
+//@           invariant[formula] skip <==> skippedUpTo(sel.Directives(), vars, rangeindex+1)
 //@           decreases len(sel.Directives()) - rangeindex
 //@           use skippedUnfold(sel.Directives(), vars, rangeindex+1)
 
@@ -432,3 +437,332 @@ package ggql
 //@   ensures[err-null] err != nil ==> res == nil
 
 //@ -- END generated scalar contracts
+
+//@ comparable Type, Selection, reflect.Type
+
+//@ -- ------------------------------------------------------------------ data-structure invariants of parsed documents and loaded schemas
+//@ -- (trusted: established by the parsers; every use is listed under assumptions in the evidence)
+//@ eleminv []Selection: v != nil && ptrval(v) != 0 && (is(v, *Field) || is(v, *Inline) || is(v, *FragRef))
+//@ eleminv []*DirectiveUse: v != nil
+//@ eleminv []*ArgValue: v != nil
+//@ eleminv []*VarDef: v != nil
+//@ fieldinv DirectiveUse.Directive: v != nil
+//@ fieldinv FragRef.Fragment: v != nil
+//@ fieldinv VarDef.Type: v != nil
+//@ fieldinv Root.uuSchemaType: v != nil
+//@ typeinv Type: v == nil || ptrval(v) != 0
+
+//@ -- ------------------------------------------------------------------ C06 error paths
+//@ -- Error lists are "owned": every *Error in a list was created for it, later entries were created later.
+//@ -- errsInc(ea, lo, hi): no nil entries; every *Error found in an entry lies in (lo, hi] (allocation order) and
+//@ -- the *Errors are strictly increasing along the list (hence pairwise distinct).
+//@ spec errsInc(ea []error, lo int, hi int) bool reads ea[]
+//@ spec errsIncBody(ea []error, lo int, hi int) bool = (forall i int {ea[i]} :: 0 <= i && i < len(ea) ==> ea[i] != nil && (aserr(ea[i]) != nil ==> lo < addr(aserr(ea[i])) && addr(aserr(ea[i])) <= hi)) && (forall i int, j int {ea[i], ea[j]} :: 0 <= i && i < j && j < len(ea) && aserr(ea[i]) != nil && aserr(ea[j]) != nil ==> addr(aserr(ea[i])) < addr(aserr(ea[j])))
+//@ autoaxiom errsIncUnfold(ea []error, lo int, hi int) {errsInc(ea, lo, hi)}: errsInc(ea, lo, hi) ==> errsIncBody(ea, lo, hi)
+//@ foldaxiom errsIncFold(ea []error, lo int, hi int) {errsInc(ea, lo, hi)}: errsIncBody(ea, lo, hi) ==> errsInc(ea, lo, hi)
+//@ spec errsFresh(ea []error) bool = errsInc(ea, old(#alloc), #alloc)
+//@ spec concatOf(a []error, b []error, c []error) bool = len(c) == len(a) + len(b) && (forall k int {c[k]} :: 0 <= k && k < len(c) ==> c[k] == ite(k < len(a), a[k], b[k - len(a)]))
+//@ autolemma errsIncWeaken(a []error, lo int, hi int, lo2 int, hi2 int) {errsInc(a, lo, hi), errsInc(a, lo2, hi2)}: errsInc(a, lo, hi) && lo2 <= lo && hi <= hi2 ==> errsInc(a, lo2, hi2)
+//@ autolemma errsIncEmpty(a []error, lo int, hi int) {errsInc(a, lo, hi)}: len(a) == 0 ==> errsInc(a, lo, hi)
+//@ autolemma errsIncSingle(a []error, lo int, hi int) {errsInc(a, lo, hi)}: len(a) == 1 && a[0] != nil && (aserr(a[0]) != nil ==> lo < addr(aserr(a[0])) && addr(aserr(a[0])) <= hi) ==> errsInc(a, lo, hi)
+//@ lemma errsIncConcat(a []error, b []error, c []error): forall lo int, m int, m2 int, hi int {errsInc(a, lo, m), errsInc(b, m2, hi)} :: errsInc(a, lo, m) && errsInc(b, m2, hi) && lo <= m && m <= m2 && m2 <= hi && isappend(a, b, c) ==> errsInc(c, lo, hi)
+//@ lemma errsIncSnoc(a []error, b []error, c []error): forall lo int, m int, hi int {errsInc(a, lo, m), errsInc(c, lo, hi)} :: errsInc(a, lo, m) && lo <= m && m <= hi && len(b) == 1 && b[0] != nil && (aserr(b[0]) != nil ==> m < addr(aserr(b[0])) && addr(aserr(b[0])) <= hi) && isappend(a, b, c) ==> errsInc(c, lo, hi)
+//@ lemma errsIncConcatL(a []error, b []error, c []error): forall m2 int, hi int {errsInc(b, m2, hi)} :: len(a) == 0 && errsInc(b, m2, hi) && isappend(a, b, c) ==> errsInc(c, m2, hi)
+//@ lemma errsIncConcatR(a []error, b []error, c []error): forall lo int, m int {errsInc(a, lo, m)} :: len(b) == 0 && errsInc(a, lo, m) && isappend(a, b, c) ==> errsInc(c, lo, m)
+//@ appendlemma error errsIncConcat
+//@ appendlemma error errsIncConcatL
+//@ appendlemma error errsIncConcatR
+//@ appendlemma error errsIncSnoc
+
+//@ spec prefixed(e *Error, loc interface{}) bool = len(e.Path) == old(len(e.Path)) + 1 && e.Path[0] == loc && (forall j int :: 0 <= j && j < old(len(e.Path)) ==> e.Path[j+1] == old(e.Path[j]))
+//@ spec samePath(e *Error) bool = len(e.Path) == old(len(e.Path)) && (forall j int :: 0 <= j && j < len(e.Path) ==> e.Path[j] == old(e.Path[j]))
+
+//@ spec newErr(res error, line int, col int) bool = is(res, *Error) && as(res, *Error) != nil && fresh(as(res, *Error)) && allocated(as(res, *Error)) && as(res, *Error).Line == line && as(res, *Error).Column == col && as(res, *Error).Base != nil
+
+//@ func resWarn
+//@   props C06
+//@   check panic {C03}
+//@   check frame {C11}
+//@   ensures[shape] newErr(res, line, col) && len(as(res, *Error).Path) == 0
+//@   assigns fresh
+
+//@ func resError
+//@   props C06
+//@   check panic {C03}
+//@   check frame {C11}
+//@   ensures[shape] newErr(res, line, col) && len(as(res, *Error).Path) == 0
+//@   assigns fresh
+
+//@ func valError
+//@   props C06
+//@   check panic {C03}
+//@   ensures[shape] newErr(res, line, col) && len(as(res, *Error).Path) == 0
+//@   assigns fresh
+
+//@ func parseError
+//@   props C06
+//@   check panic {C03}
+//@   ensures[shape] newErr(res, line, col) && len(as(res, *Error).Path) == 0
+//@   assigns fresh
+
+//@ func resWarnp
+//@   props C06
+//@   check panic {C03}
+//@   check frame {C11}
+//@   requires sel != nil ==> ptrval(sel) != 0
+//@   ensures[shape] is(res, *Error) && as(res, *Error) != nil && fresh(as(res, *Error)) && allocated(as(res, *Error)) && as(res, *Error).Base != nil
+//@   ensures[path-field] is(sel, *Field) ==> len(as(res, *Error).Path) == 1 && as(res, *Error).Path[0] == box(fkey(as(sel, *Field)))
+//@   ensures[path-none] !is(sel, *Field) ==> len(as(res, *Error).Path) == 0
+//@   ensures[location] sel != nil ==> as(res, *Error).Line == sel.Line() && as(res, *Error).Column == sel.Column()
+//@   ensures[no-location] sel == nil ==> as(res, *Error).Line == 0 && as(res, *Error).Column == 0
+//@   assigns fresh
+
+//@ func (*Error).in
+//@   props C06
+//@   check panic {C03}
+//@   check frame {C06}
+//@   requires err != nil
+//@   ensures[prefix-once] prefixed(err, loc)
+//@   assigns fresh, err.Path
+
+//@ func (Errors).in
+//@   props C06
+//@   check panic {C03}
+//@   check frame {C06}
+//@   requires errsInc(err, 0, #alloc)
+//@   ensures[each-once] forall i int :: 0 <= i && i < len(err) && aserr(err[i]) != nil ==> prefixed(aserr(err[i]), loc)
+//@   assigns fresh, forall i in err: aserr(err[i]).Path
+//@   loop 0: invariant[bounds] 0 <= rangeindex+1 && rangeindex+1 <= len(err)
+//@           invariant[done] forall i int :: 0 <= i && i <= rangeindex && aserr(err[i]) != nil ==> prefixed(aserr(err[i]), loc)
+//@           invariant[todo] forall i int :: rangeindex < i && i < len(err) && aserr(err[i]) != nil ==> samePath(aserr(err[i]))
+//@           decreases len(err) - rangeindex
+
+//@ -- ------------------------------------------------------------------ resolve walk (C01, C06, C08, C09, C10)
+//@ spec fkey(f *Field) string = ite(len(f.Alias) > 0, f.Alias, f.Name)
+//@ spec skippedSel(sel Selection, vars map[string]interface{}) bool = skippedUpTo(sel.Directives(), vars, len(sel.Directives()))
+//@ spec fdOf(t Type, name string) *FieldDef = ite(is(t, *Object), as(t, *Object).fields.dict[name], ite(is(t, *uuSchema), as(t, *uuSchema).fields.dict[name], ite(is(t, *Schema), as(t, *Schema).fields.dict[name], ite(is(t, *Interface), as(t, *Interface).fields.dict[name], nil))))
+
+//@ func (*Root).getFieldDef
+//@   props C10
+//@   check panic {C03}
+//@   requires is(t, *Object) ==> as(t, *Object) != nil
+//@   requires is(t, *uuSchema) ==> as(t, *uuSchema) != nil
+//@   requires is(t, *Schema) ==> as(t, *Schema) != nil
+//@   requires is(t, *Interface) ==> as(t, *Interface) != nil
+//@   ensures[lookup] fd == fdOf(t, name)
+//@   assigns nothing
+
+//@ func (*Root).resolveInline
+//@   requires ptrval(t) != 0
+//@   ensures[errs-fresh]{C06} errsFresh(ea)
+//@   props C08
+//@   check panic {C03}
+//@   check frame {C11}
+//@   requires root != nil && sel != nil && result != nil && t != nil
+//@   requires !skippedSel(box(sel), vars)
+//@   ensures[not-applicable]{C08} sel.Condition != nil && sel.Condition != t ==> len(ea) == 0 && #res == old(#res) && (forall k string :: (has(result, k) <==> old(has(result, k))) && result[k] == old(result[k]))
+//@   assigns fresh, result, H_Field.ConType, H_Field.Args, H_Object.meta, held, #res
+
+//@ func (*Root).resolveFragRef
+//@   requires ptrval(t) != 0
+//@   ensures[errs-fresh]{C06} errsFresh(ea)
+//@   props C08
+//@   check panic {C03}
+//@   check frame {C11}
+//@   requires root != nil && sel != nil && result != nil && t != nil
+//@   requires !skippedSel(box(sel), vars)
+//@   ensures[not-applicable]{C08} sel.Fragment.Condition != nil && sel.Fragment.Condition != t ==> len(ea) == 0 && #res == old(#res) && (forall k string :: (has(result, k) <==> old(has(result, k))) && result[k] == old(result[k]))
+//@   assigns fresh, result, H_Field.ConType, H_Field.Args, H_Object.meta, held, #res
+
+//@ func (*Root).resolveSels
+//@   requires ptrval(t) != 0
+//@   ensures[errs-fresh]{C06} errsFresh(ea)
+//@   props C01
+//@   check panic {C03}
+//@   check frame {C11}
+//@   requires root != nil && result != nil
+//@   requires t != nil
+//@   assigns fresh, result, H_Field.ConType, H_Field.Args, H_Object.meta, held, #res
+//@   loop 0: invariant[bounds] 0 <= rangeindex+1 && rangeindex+1 <= len(sels)
+//@           invariant[errs] errsFresh(ea)
+//@           decreases len(sels) - rangeindex
+
+//@ -- user callbacks: each Resolve call counts as a resolver invocation; user code is assumed not to write ggql-owned memory
+//@ interface Resolver.Resolve
+//@   ghost #res += 1
+//@   assigns fresh
+//@ interface AnyResolver.Resolve
+//@   ghost #res += 1
+//@   assigns fresh
+//@ interface ListResolver.Len
+//@   pure
+//@ interface ListResolver.Nth
+//@   pure
+//@ interface AnyResolver.Len
+//@   pure
+//@ interface AnyResolver.Nth
+//@   ghost #res += 1
+//@   assigns fresh
+
+//@ spec isMetaName(n string) bool = n == "__typename" || n == "__type" || n == "__schema"
+
+//@ func (*Root).GetType
+//@   abstract schema table lookup (root.init is idempotent after setup)
+//@   ensures res == nil || ptrval(res) != 0
+//@   assigns nothing
+
+//@ spec argDeclared(t Type, fname string, aname string) bool = fdOf(t, fname) != nil && fdOf(t, fname).args.dict[aname] != nil
+//@ fieldinv FieldDef.args: true
+//@ eleminv []*Arg: v != nil
+
+//@ func (*Field).getArg
+//@   props C10
+//@   check panic {C03}
+//@   requires f != nil
+//@   ensures[found] av != nil ==> av.Arg == name
+//@   ensures #res == old(#res)
+//@   assigns nothing
+//@   loop 0: invariant[bounds] rangeindex+1 <= len(f.Args)
+//@           decreases len(f.Args) - rangeindex
+
+//@ func (*Field).sortArgs
+//@   props C10
+//@   check panic {C03}
+//@   check frame {C11}
+//@   requires f != nil
+//@   requires f.ConType != nil ==> ptrval(f.ConType) != 0
+//@   ensures[errs-fresh]{C06} errsFresh(errors)
+//@   ensures[no-resolver]{C10} #res == old(#res)
+//@   ensures[undeclared-arg-object]{C10} is(old(f.ConType), *Object) ==> (forall i int :: 0 <= i && i < old(len(f.Args)) && old(fdOf(f.ConType, f.Name) != nil && !argDeclared(f.ConType, f.Name, f.Args[i].Arg)) ==> len(errors) > 0)
+//@   ensures[undeclared-arg-interface]{C10} is(old(f.ConType), *Interface) ==> (forall i int :: 0 <= i && i < old(len(f.Args)) && old(fdOf(f.ConType, f.Name) != nil && !argDeclared(f.ConType, f.Name, f.Args[i].Arg)) ==> len(errors) > 0)
+//@   ensures[undeclared-arg-schema]{C10} (is(old(f.ConType), *Schema) || is(old(f.ConType), *uuSchema)) ==> (forall i int :: 0 <= i && i < old(len(f.Args)) && old(fdOf(f.ConType, f.Name) != nil && !argDeclared(f.ConType, f.Name, f.Args[i].Arg)) ==> len(errors) > 0)
+//@   assigns fresh
+//@   loop 0: invariant[bounds] rangeindex+1 <= len(fd.args.list)
+//@           decreases len(fd.args.list) - rangeindex
+//@   loop 1: invariant[bounds] rangeindex+1 <= len(f.Args)
+//@           invariant[errs] errsFresh(errors)
+//@           invariant[found]{C10} forall i int :: 0 <= i && i <= rangeindex && !argDeclared(f.ConType, f.Name, f.Args[i].Arg) ==> len(errors) > 0
+//@           decreases len(f.Args) - rangeindex
+
+//@ func (*Root).formArgs
+//@   abstract (not yet checked against the body)
+//@   requires field != nil
+//@   ensures errsFresh(ea)
+//@   ensures #res == old(#res)
+//@   assigns fresh
+
+//@ func (*Root).resolveReflect
+//@   abstract reflection strategy (reflect.Value.Call and struct field reads are user data access)
+//@   requires field != nil
+//@   ensures errsFresh(ea)
+//@   assigns fresh, #res
+
+//@ func (*Root).addError
+//@   abstract (not yet checked against the body)
+//@   requires f != nil && err != nil
+//@   ensures forall lo int {errsInc(ea, lo, old(#alloc))} :: errsInc(ea, lo, old(#alloc)) && lo <= old(#alloc) ==> errsInc(res, lo, #alloc)
+//@   ensures len(res) > len(ea)
+//@   ensures #res == old(#res)
+//@   assigns fresh
+
+//@ interface OutCoercer.CoerceOut
+//@   ensures[err-null] err != nil ==> res == nil
+//@   assigns fresh
+
+//@ func (*Object).metaCheck
+//@   abstract reflection binding lookup (reflect.Type identity is trusted)
+//@   requires t != nil
+//@   results meta, err
+//@   ensures aserr(err) == nil
+//@   assigns fresh, t.meta, held
+
+//@ func (*Root).resolve
+//@   props C01
+//@   check panic {C03}
+//@   check frame {C11}
+//@   requires root != nil && field != nil
+//@   requires t != nil ==> ptrval(t) != 0
+//@   ensures[errs-fresh]{C06} errsFresh(ea)
+//@   ensures[null-depth]{C01} (depth <= 0 || isnilv(obj)) ==> result == obj && len(ea) == 0 && #res == old(#res)
+//@   ensures[leaf-error-null]{C05} depth > 0 && !isnilv(obj) && !is(t, *List) && !is(t, *Object) && !is(t, *Schema) && !is(t, *Interface) && !is(t, *uuSchema) && !is(t, *NonNull) && !is(t, *Union) && len(ea) > 0 ==> result == nil
+//@   assigns fresh, H_Field.ConType, H_Field.Args, H_Object.meta, held, #res
+//@   loop 0: invariant[bounds] 0 <= rangeindex+1 && rangeindex+1 <= len(tt.Members)
+//@           decreases len(tt.Members) - rangeindex
+
+//@ spec idxPaths(ea []error, n int, m int) bool = forall k int {ea[k]} split k < m :: 0 <= k && k < len(ea) && aserr(ea[k]) != nil ==> len(aserr(ea[k]).Path) >= 1 && is(aserr(ea[k]).Path[0], int) && 0 <= as(aserr(ea[k]).Path[0], int) && as(aserr(ea[k]).Path[0], int) < n
+
+//@ func (*Root).resolveList
+//@   props C01
+//@   check panic {C03}
+//@   check frame {C11}
+//@   requires root != nil && field != nil && t != nil
+//@   ensures[errs-fresh]{C06} errsFresh(ea)
+//@   ensures[iface-list-len]{C01} is(obj, []interface{}) ==> is(result, []interface{}) && len(as(result, []interface{})) == len(as(obj, []interface{}))
+//@   ensures[listresolver-len]{C01} is(obj, ListResolver) && as(obj, ListResolver).Len() >= 0 ==> is(result, []interface{}) && len(as(result, []interface{})) == as(obj, ListResolver).Len()
+//@   assigns fresh, H_Field.ConType, H_Field.Args, H_Object.meta, held, #res
+//@   loop 0: invariant[bounds] 0 <= i && (i <= cnt || i == 0)
+//@           invariant[len] len(rlist) == i
+//@           invariant[errs] errsFresh(ea)
+//@           invariant[idx]{C06} idxPaths(ea, i, len(hdr(ea)))
+//@           decreases cnt - i
+//@   loop 1: invariant[bounds] 0 <= rangeindex+1 && rangeindex+1 <= len(list)
+//@           invariant[len] len(rlist) == rangeindex+1
+//@           invariant[errs] errsFresh(ea)
+//@           invariant[idx]{C06} idxPaths(ea, rangeindex+1, len(hdr(ea)))
+//@           decreases len(list) - rangeindex
+//@   loop 9: invariant[bounds] 0 <= i && (i <= cnt || i == 0)
+//@           invariant[len] len(rlist) == i
+//@           invariant[errs] errsFresh(ea)
+//@           invariant[idx]{C06} idxPaths(ea, i, len(hdr(ea)))
+//@           decreases cnt - i
+//@   loop 10: invariant[bounds] 0 <= i && (i <= cnt || i == 0)
+//@           invariant[len] len(rlist) == i
+//@           invariant[errs] errsFresh(ea)
+//@           invariant[idx]{C06} idxPaths(ea, i, len(hdr(ea)))
+//@           decreases cnt - i
+
+//@ func (*Root).resolveField
+//@   requires ptrval(t) != 0
+//@   props C01
+//@   check panic {C03}
+//@   check frame {C11}
+//@   requires root != nil && field != nil && result != nil && t != nil
+//@   requires{C09} !skippedSel(box(field), vars)
+//@   ensures[errs-fresh]{C06} errsFresh(ea)
+//@   ensures[key-frame]{C01} forall k string :: k != fkey(field) ==> (has(result, k) <==> old(has(result, k))) && result[k] == old(result[k])
+//@   ensures[typename]{C01} old(field.ConType) != nil && field.Name == "__typename" ==> has(result, fkey(field)) && result[fkey(field)] == box(t.Name()) && len(ea) == 0 && #res == old(#res)
+//@   ensures[undefined-field]{C10} old(field.ConType) != nil && !isMetaName(field.Name) && old(fdOf(t, field.Name)) == nil ==> len(ea) > 0 && #res == old(#res) && (has(result, fkey(field)) <==> old(has(result, fkey(field)))) && result[fkey(field)] == old(result[fkey(field)])
+//@   assigns fresh, result, H_Field.ConType, H_Field.Args, H_Object.meta, held, #res
+
+//@ func (*Root).resolveFieldSels
+//@   requires ptrval(t) != 0
+//@   props C01
+//@   check panic {C03}
+//@   check frame {C11}
+//@   requires root != nil && field != nil
+//@   requires t != nil
+//@   ensures[fresh-map]{C01} is(result, map[string]interface{}) && fresh(as(result, map[string]interface{}))
+//@   ensures[errs-fresh]{C06} errsFresh(ea)
+//@   assigns fresh, H_Field.ConType, H_Field.Args, H_Object.meta, held, #res
+
+//@ -- ------------------------------------------------------------------ ResolveExecutable (C01 operation choice, C04 variables, C07 shape)
+//@ fieldinv Executable.Ops: v != nil
+
+//@ func (*Root).subscribe
+//@   abstract (registry contracts: see C19)
+//@   requires root != nil && sub != nil
+//@   ensures #res == old(#res)
+//@   assigns fresh, root.subscriptions, H_Field.ConType, held
+
+//@ func (*Root).ResolveExecutable
+//@   props C01
+//@   check panic {C03}
+//@   requires root != nil && exe != nil
+//@   requires root.schema != nil
+//@   ensures[unknown-name]{C01} opName != "" && old(exe.Ops[opName]) == nil ==> err != nil && result == nil && #res == old(#res)
+//@   ensures[ambiguous]{C01} opName == "" && old(exe.Ops[opName]) == nil && old(len(exe.Ops)) != 1 ==> err != nil && result == nil && #res == old(#res)
+//@   use dirsOfField(addrof(field))
+//@   use skippedUnfold(addrof(field).Dirs, opVars, 0)
+//@   loop 0: invariant[bounds] 0 <= rangeindex+1 && rangeindex+1 <= len(op.Variables)
+//@           invariant[no-res] #res == old(#res)
+//@           decreases len(op.Variables) - rangeindex
